@@ -11,6 +11,19 @@
 void* __builtin_assume_aligned(const void* p, size_t a, ...) { return (void*)p; }
 
 #include "seq_atomics.h"     /* sequential step lemmas: atomics are plain memory operations here (concurrency: bitmap_rg.c) */
+/* one word (the abandoned bitmap field in the C09 harnesses) can be put under rely/guarantee interference: before each atomic
+   access other threads may change every bit (other claimers clear markers, other threads abandon segments) */
+static void* rg_word; static int rg_budget; static size_t rg_last_prev; static int rg_rmw_count;
+static void rg_hit(size_t* p) { if (rg_budget > 0 && nd_bool()) { rg_budget--; *p = nd_size(); } }
+static size_t rgx_load(size_t* p) { if ((void*)p == rg_word) rg_hit(p); return *p; }
+static size_t rgx_and(size_t* p, size_t v) { if ((void*)p == rg_word) { rg_hit(p); rg_rmw_count++; } size_t o = *p; if ((void*)p == rg_word) rg_last_prev = o; *p = o & v; return o; }
+static size_t rgx_or(size_t* p, size_t v)  { if ((void*)p == rg_word) { rg_hit(p); rg_rmw_count++; } size_t o = *p; if ((void*)p == rg_word) rg_last_prev = o; *p = o | v; return o; }
+#undef mi_atomic_load_relaxed
+#undef mi_atomic_and_acq_rel
+#undef mi_atomic_or_acq_rel
+#define mi_atomic_load_relaxed(p)   rgx_load((size_t*)(p))
+#define mi_atomic_and_acq_rel(p,v)  rgx_and((size_t*)(p),(size_t)(v))
+#define mi_atomic_or_acq_rel(p,v)   rgx_or((size_t*)(p),(size_t)(v))
 #include "bitmap.c"
 #include "arena.c"
 
@@ -370,6 +383,109 @@ void h_manage(void) {
   CHECK((A_INUSE(a) & ~valid) == ~valid && (A_INUSE(a) & valid) == 0, "C15: left-over bits are blocked, all real blocks free");
   WITNESS("managed");
   if ((uintptr_t)start % MI_SEGMENT_ALIGN != 0) WITNESS("trimmed");
+}
+#endif
+
+/* ================================================================== C09: abandonment ==== */
+#if defined(HARNESS_h_abandon_bit) || defined(HARNESS_h_abandon_at) || defined(HARNESS_h_abandon_os)
+static struct { mi_segment_t seg; } SG[3];
+static mi_subproc_t SP[2];
+static bool lock_held; static int lock_fail;
+bool stub_lock_try_acquire(mi_lock_t* l) { if (nd_bool()) { lock_fail++; return false; } CHECK(!lock_held, "lock not re-entered"); lock_held = true; return true; }
+void stub_lock_acquire(mi_lock_t* l) { CHECK(!lock_held, "lock not re-entered"); lock_held = true; }
+void stub_lock_release(mi_lock_t* l) { CHECK(lock_held, "release of a held lock"); lock_held = false; }
+mi_threadid_t _mi_thread_id(void) mi_attr_noexcept { return 0x77; }
+#endif
+
+#ifdef HARNESS_h_abandon_bit
+/* arena segments: mark / clear of the abandoned marker decides the single new owner with ONE atomic read-modify-write,
+   whatever other claimers do concurrently */
+void h_abandon_bit(void) {
+  make_arena(0, false); mi_arena_count = 1;
+  mi_arena_t* a = &AO[0].a;
+  mi_segment_t* seg = &SG[0].seg;
+  size_t blk = nd_size(); ASSUME(blk < NB);
+  seg->memid = mi_memid_create_arena(a->id, a->exclusive, blk);
+  seg->subproc = &SP[0]; SP[0].abandoned_count = nd_size() % 1000 + 1;
+  *a->blocks_abandoned = nd_size() & FIELD_VALID;
+  rg_word = (void*)a->blocks_abandoned; rg_budget = 2;
+  size_t cnt0 = SP[0].abandoned_count;
+  if (nd_bool()) {
+    seg->thread_id = 0;
+    bool won = _mi_arena_segment_clear_abandoned(seg);
+    CHECK(rg_rmw_count == 1, "C09: the claim is decided by exactly one atomic read-modify-write on the marker");
+    CHECK(won == (((rg_last_prev >> blk) & 1) != 0), "C09: the claimer wins iff its own atomic operation found the marker set and cleared it (so at most one claimer wins per mark)");
+    if (won) { CHECK(seg->thread_id == _mi_thread_id() && SP[0].abandoned_count == cnt0 - 1, "winner takes ownership and the abandoned count drops by one"); WITNESS("won"); }
+    else { CHECK(seg->thread_id == 0 && SP[0].abandoned_count == cnt0, "loser changes nothing"); WITNESS("lost"); }
+  } else {
+    seg->thread_id = 0x55; seg->used = 1; seg->abandoned = 1;
+    _mi_arena_segment_mark_abandoned(seg);
+    CHECK(seg->thread_id == 0, "abandoned segment has no owner thread");
+    CHECK(rg_rmw_count == 1, "one atomic operation sets the marker");
+    CHECK(SP[0].abandoned_count == cnt0 + ((((rg_last_prev >> blk) & 1) == 0) ? 1 : 0), "abandoned count incremented exactly when the marker was newly set");
+    WITNESS("marked");
+  }
+}
+#endif
+
+#ifdef HARNESS_h_abandon_at
+/* the scanning claim: a segment of another sub-process is put back and not adopted */
+void h_abandon_at(void) {
+  make_arena(0, false); mi_arena_count = 1;
+  mi_arena_t* a = &AO[0].a;
+  a->start = (uint8_t*)&SG[0];                 /* block 0 of the arena holds the segment */
+  mi_segment_t* seg = &SG[0].seg;
+  seg->memid = mi_memid_create_arena(a->id, a->exclusive, 0); seg->thread_id = 0;
+  bool same = nd_bool();
+  seg->subproc = same ? &SP[0] : &SP[1];
+  SP[0].abandoned_count = 5; SP[1].abandoned_count = 7;
+  bool marked = nd_bool();
+  *a->blocks_abandoned = marked ? 1 : 0;
+  A_INUSE(a) |= 1;
+  mi_segment_t* r = mi_arena_segment_clear_abandoned_at(a, &SP[0], 0);
+  if (!marked) { CHECK(r == NULL && *a->blocks_abandoned == 0, "nothing to adopt"); WITNESS("unmarked"); }
+  else if (same) { CHECK(r == seg && *a->blocks_abandoned == 0 && SP[0].abandoned_count == 4, "a segment of the same sub-process is adopted once"); WITNESS("adopted"); }
+  else { CHECK(r == NULL, "C09: a segment of another sub-process is never adopted"); CHECK((*a->blocks_abandoned & 1) == 1, "C09: it is put back as abandoned"); CHECK(SP[0].abandoned_count == 5 && SP[1].abandoned_count == 7, "counts unchanged"); WITNESS("foreign"); }
+}
+#endif
+
+#ifdef HARNESS_h_abandon_os
+/* OS segments: the abandoned list under its lock.  LISTLEN segments on the list (driver), TARGET the one reclaimed
+   (TARGET == LISTLEN: a segment that is not on the list) */
+#ifndef LISTLEN
+#define LISTLEN 2
+#endif
+#ifndef TARGET
+#define TARGET 0
+#endif
+void h_abandon_os(void) {
+  mi_subproc_t* sp = &SP[0];
+  for (int i = 0; i < 3; i++) { SG[i].seg.memid = _mi_memid_create(MI_MEM_OS); SG[i].seg.subproc = sp; SG[i].seg.thread_id = 0; SG[i].seg.abandoned_os_next = NULL; SG[i].seg.abandoned_os_prev = NULL; }
+  for (int i = 0; i < LISTLEN; i++) mi_arena_segment_os_mark_abandoned(&SG[i].seg);
+  CHECK(sp->abandoned_os_list_count == LISTLEN && sp->abandoned_count == LISTLEN, "marking counts the segments");
+  CHECK(LISTLEN == 0 ? (sp->abandoned_os_list == NULL && sp->abandoned_os_list_tail == NULL) : (sp->abandoned_os_list == &SG[0].seg && sp->abandoned_os_list_tail == &SG[LISTLEN-1].seg), "list head/tail after marking");
+  mi_segment_t* t = &SG[TARGET].seg;
+  bool r = _mi_arena_segment_clear_abandoned(t);
+  CHECK(!lock_held, "the list lock is released");
+  if (lock_fail > 0) { CHECK(!r, "lock not acquired: give up, nothing changes"); CHECK(sp->abandoned_os_list_count == LISTLEN, "list untouched"); WITNESS("lock busy"); return; }
+  if (TARGET < LISTLEN) {
+    CHECK(r, "C09/C11: a segment that is on the abandoned list can be reclaimed (also when it is the only entry)");
+    CHECK(t->thread_id == _mi_thread_id() && t->abandoned_os_next == NULL && t->abandoned_os_prev == NULL, "reclaimed segment is owned and unlinked");
+    CHECK(sp->abandoned_os_list_count == LISTLEN - 1 && sp->abandoned_count == LISTLEN - 1, "counts drop by one");
+    /* the remaining entries form a well-formed list in the original order */
+    mi_segment_t* prev = NULL; mi_segment_t* cur = sp->abandoned_os_list; int n = 0;
+    for (int i = 0; i < LISTLEN; i++) { if (i == TARGET) continue; CHECK(cur == &SG[i].seg, "C09: every other abandoned segment stays on the list (none dropped)"); if (cur == NULL) break; CHECK(cur->abandoned_os_prev == prev, "prev links"); prev = cur; cur = cur->abandoned_os_next; n++; }
+    CHECK(cur == NULL && sp->abandoned_os_list_tail == prev, "C09: tail pointer consistent (a later abandon appends, it does not overwrite the list)");
+#if TARGET < LISTLEN
+    WITNESS("reclaimed");
+#endif
+  } else {
+    CHECK(!r, "a segment that is not on the list is not reclaimed");
+    CHECK(sp->abandoned_os_list_count == LISTLEN, "list untouched");
+#if TARGET >= LISTLEN
+    WITNESS("not listed");
+#endif
+  }
 }
 #endif
 
